@@ -890,10 +890,22 @@ class Engine:
         return V(TSet(ty), s)
 
     def ev_JoinedStr(self, n, st):
-        # f-string: opaque string of unknown content; sub-expressions are still evaluated (safety)
+        # f-string: the concatenation of its parts when every formatted value is a plain `str` (no conversion, no format spec); otherwise an
+        # opaque string of unknown content (sub-expressions are still evaluated: safety obligations)
+        parts, exact = [], True
         for v in n.values:
-            if isinstance(v, ast.FormattedValue):
-                self.ev(v.value, st)
+            if isinstance(v, ast.Constant) and isinstance(v.value, str):
+                parts.append(z3.StringVal(v.value))
+            elif isinstance(v, ast.FormattedValue):
+                x = self.ev(v.value, st)
+                if isinstance(x, V) and x.ty is TStr and v.conversion == -1 and v.format_spec is None:
+                    parts.append(x.t)
+                else:
+                    exact = False
+            else:
+                exact = False
+        if exact and parts:
+            return V(TStr, z3.Concat(*parts) if len(parts) > 1 else parts[0])
         return self.fresh(st, TStr, "fstr")
 
     def ev_Lambda(self, n, st):
@@ -966,6 +978,18 @@ class Engine:
             raise OutOfSubset(n, "slice step")
         lo = self.ev(sl.lower, st) if sl.lower is not None else None
         hi = self.ev(sl.upper, st) if sl.upper is not None else None
+
+        def _some(x, what):
+            # an Optional operand of a slice: None is a TypeError for the sliced object, and `None` as a BOUND means "open" - a bound that may be
+            # None at run time is outside the subset; in a clause the guarded value is meant
+            if isinstance(x, V) and isinstance(x.ty, TOpt):
+                if not self.spec_mode:
+                    self.require(st, "safe.none", n, x.ty.sort().is_some(x.t), "TypeError" if what == "base" else None,
+                                 "slice bound may be None (would silently mean an open bound)" if what != "base" else "")
+                return V(x.ty.t, x.ty.sort().v(x.t))
+            return x
+
+        base, lo, hi = _some(base, "base"), _some(lo, "lo"), _some(hi, "hi")
         if isinstance(base, tuple):
             l = self.concrete_int(lo, n) if lo is not None else None
             h = self.concrete_int(hi, n) if hi is not None else None
